@@ -205,6 +205,23 @@ def reg_run(ctx, test, tracefile, summary, env, design, rule, what, tags_of=None
     return vlib.finish(ctx, cov)
 
 
+def c01_tags(head, evs, line):
+    t = ttl_tags(head, evs, line)
+    t["read_repair"] = "RR=true" in head.get("cfg", "")
+    # does a Get overlap a write in this history?
+    open_ops, overlap = {}, False
+    for e in evs:
+        if e.get("t") == "inv":
+            for o in open_ops.values():
+                if (o.get("op") == "get") != (e.get("op") == "get"):
+                    overlap = True
+            open_ops[e.get("c")] = e
+        elif e.get("t") == "res":
+            open_ops.pop(e.get("c"), None)
+    t["get_overlaps_write"] = overlap
+    return {k: t[k] for k in ("kind", "read_repair", "get_overlaps_write", "rejected_op") if k in t}
+
+
 @register("C01")
 def c01(ctx):
     quick = ctx.tier == "quick"
@@ -212,11 +229,13 @@ def c01(ctx):
                         "an operation that ends in a transport error may or may not have taken effect"]
     rule = ("seeded random programs of 2-4 concurrent clients (each on a random entry path: embedded on any member, cluster client, "
             "raw RESP to any member) x 6-13 Put/PutNX/PutXX/Get/Delete on 2-4 keys, on clusters N in 1..3, R in 1..3, single- and "
-            "multi-table fragments; one history per key; non-trivial = two operations on the key overlap in time and one of them writes; "
+            "multi-table fragments; plus contention rounds: 3-5 operations (Delete, Put XX, Put NX, Put, Get through random paths) on one fresh key released at the same "
+            "instant, followed by a read; one history per key; non-trivial = two operations on the key overlap in time and one of them writes; "
             "distinct = distinct event sequences")
     design = [("DMapKeyMC", "DMapKey_quick.cfg" if quick else "DMapKey_thorough.cfg", {"timeout": 1500})]
     return reg_run(ctx, "TestC01", "c01.ndjson", "c01.summary.json",
-                   {"VERIF_ROUNDS": 8 if quick else 150}, design, rule, "per-key linearizability")
+                   {"VERIF_ROUNDS": 8 if quick else 150, "VERIF_CONTENTION": 150 if quick else 3000}, design, rule, "per-key linearizability",
+                   tags_of=c01_tags)
 
 
 def entry_tags(head, evs, line):
@@ -403,10 +422,10 @@ def c14(ctx):
                         "proves that nothing else was delivered (no time-outs involved)",
                         "a connection holding a channel subscription and a matching pattern is served once per subscription"]
     rule = ("operation paths exported by TLC from PubSub.tla (one per distinct subscription state with <= %d operations over 3 connections on 2 members, "
-            "channels {a,ab,b}, patterns {a*,*}; plus every path of length <= %d) each followed by PUBLISH on every channel and PUBSUB CHANNELS/NUMSUB/NUMPAT; "
+            "channels {a,ab,b}, patterns {a*,*}, including disconnects and re-connects; plus every path of length <= %d) each followed by PUBLISH on every channel and PUBSUB CHANNELS/NUMSUB/NUMPAT; "
             "seeded random programs with duplicate subscriptions, unsubscribe-all and disconnects; rounds with two concurrent publishers; "
-            "non-trivial = some publish had >= 1 delivery while >= 1 live subscription did not match") % ((3, 2) if quick else (4, 3))
-    ra = vlib.design_check(ctx, "PubSubMC", "PubSub.cfg", consts={"MaxOps": 3 if quick else 4, "Export": "TRUE"}, name="design-states")
+            "non-trivial = some publish had >= 1 delivery while >= 1 live subscription did not match") % ((4, 2) if quick else (5, 3))
+    ra = vlib.design_check(ctx, "PubSubMC", "PubSub.cfg", consts={"MaxOps": 4 if quick else 5, "Export": "TRUE"}, name="design-states")
     behs = set(vlib.behaviours(ra))
     # every path up to a length (no VIEW: distinct paths are distinct states)
     cfgtxt = open(os.path.join(vlib.SPEC, "PubSub.cfg")).read().replace("VIEW view\n", "")
